@@ -63,8 +63,8 @@ CHECKS = {
     'C18': dict(
         engine='formula',
         technique='Lean 4 proof over the reals about definitions REGENERATED from the Python source on every run (21 translated variants of the ten spectra), translation validation at Float, numerical quadrature of the implementation as failing-input search',
-        text='Theorems at the reals about the regenerated definitions: non-negativity of all ten spectra on the admissible domain; ISSC, Gaussian-swell and JONSWAP (beta = 5/4, gamma >= 1) are maximal at the stated peak frequency; JONSWAP = (gamma = 1 form) x gamma^r with the factor in [1, gamma] and equal to gamma at the peak; each normalised wind spectrum equals f*S(f)/scale of the dimensional one at the reduced frequency (Davenport x2, EC1 x5 terrain categories, IEC x3 components). Area theorems (documented variance) are in Proofs/C18Areas.lean where proved; every area, peak and relation is also evaluated numerically on the implementation (quadrature), which is what exhibits a failing input when a constant or exponent is edited and a proof breaks.',
-        note='Trusted: Lean kernel + standard axioms + Mathlib; harness/translate.py validated each run at Float (1e-9 relative, Gamma by Lanczos in the Float instance only); for the two Davenport forms the normalising scale is kappa*U^2 resp. u*^2 (= variance/6) as in the code, its documentation and the source paper (DESIGN §7); clauses whose area theorem is not yet proved are decided by quadrature only (listed in the evidence).',
+        text='Theorems at the reals about the regenerated definitions: non-negativity of all ten spectra on the admissible domain; ISSC, Gaussian-swell and JONSWAP (beta = 5/4, gamma >= 1) are maximal at the stated peak frequency; JONSWAP = (gamma = 1 form) x gamma^r with the factor in [1, gamma] and equal to gamma at the peak; each normalised wind spectrum equals f*S(f)/scale of the dimensional one at the reduced frequency (Davenport x2, EC1 x5 terrain categories, IEC x3 components). Area theorems (Proofs/C18Areas.lean): the integral over (0, inf) equals Hs^2/16 (ISSC), alpha g^2/(4 beta) (Uw/g)^4 (Pierson-Moskowitz), (Hs1^2+Hs2^2)/16 (Ochi-Hubble, via the Gamma integral), sigma_k^2 (EC1 x5, IEC x3), 6 kappa U^2 and 6 u*^2 (Davenport); Gaussian swell integrates to Hs^2/16 over the real line. Every area, peak and relation is also evaluated numerically on the implementation (quadrature), which is what exhibits a failing input when a constant or exponent is edited and a proof breaks.',
+        note='Trusted: Lean kernel + standard axioms + Mathlib; harness/translate.py validated each run at Float (1e-9 relative, Gamma by Lanczos in the Float instance only); for the two Davenport forms the normalising scale is kappa*U^2 resp. u*^2 (= variance/6) as in the code, its documentation and the source paper (DESIGN §7).',
         ref='§5 C18'),
     'C08': dict(
         engine='formula',
